@@ -731,11 +731,70 @@ def run(ctx):
     evaluate(ctx, build_cases(ctx))
 
 
+def _neighbourhood(desc, rng, limit=120):
+    """inputs close to a pending case: the same graph with every option, with one (undirected) edge or one node
+    removed, with unit weights — the shrinking space of the failing-input search"""
+    out = []
+    f = desc.get('f')
+    if f in ('get_dendrogram', 'reorder_dendrogram', 'split_dendrogram'):
+        return cases_from_desc(desc)
+    if f not in ('Paris', 'LouvainHierarchy', 'LouvainIteration') or 'graph' not in desc:
+        return out
+    a = _gfrom(desc['graph'])
+    fb = desc.get('force_bipartite', False)
+    variants = [a]
+    c = a.tocoo()
+    square = a.shape[0] == a.shape[1] and not fb
+    pairs = sorted(set((min(i, j), max(i, j)) if square else (i, j) for i, j in zip(c.row, c.col)))
+    for (i, j) in pairs:
+        b = a.tolil(copy=True)
+        b[i, j] = 0
+        if square:
+            b[j, i] = 0
+        b = sparse.csr_matrix(b)
+        b.eliminate_zeros()
+        if b.nnz:
+            variants.append(b)
+    if square and a.shape[0] > 2:
+        for v in range(a.shape[0]):
+            keep = [x for x in range(a.shape[0]) if x != v]
+            b = sparse.csr_matrix(a[keep][:, keep])
+            if b.nnz:
+                variants.append(b)
+    u = a.copy()
+    u.data = np.ones(len(u.data))
+    variants.append(u)
+    if len(variants) > limit:
+        variants = variants[:1] + rng.sample(variants[1:], limit - 1)
+    for b in variants:
+        for w, r in PARIS_OPTS:
+            out += cases_paris(b, w, r, fb, container=desc.get('container'))
+        if f != 'Paris':
+            for o in ([desc.get('opts', {})] + (LOUVAIN_H_OPTS if f == 'LouvainHierarchy' else LOUVAIN_I_OPTS)):
+                out += cases_louvain(f, b, o, fb, container=desc.get('container'))
+    return out
+
+
 def search(ctx, pending):
-    """Specification on the implementation over the exhaustive small space: all undirected graphs n <= 4 (loops for
-    n <= 3) x all options of the three algorithms, small bipartite inputs, all trees shapes via random sampling."""
+    """A failing input of the property itself (specification false on an implementation output). First the
+    neighbourhood of every pending case (the same input under all options, with one edge / node removed, with unit
+    weights), then the exhaustive small space: all undirected graphs n <= 4 (loops for n <= 3) x all options of the
+    three algorithms, small bipartite inputs, random trees."""
     rng = ctx.rng
     cases = []
+    seen = set()
+    for kind, sig, obj in pending[:8]:
+        desc = (obj or {}).get('case') if isinstance(obj, dict) else None
+        if not isinstance(desc, dict):
+            continue
+        k = json.dumps(desc, sort_keys=True, default=str)
+        if k in seen:
+            continue
+        seen.add(k)
+        try:
+            cases += _neighbourhood(desc, rng)
+        except Exception as e:
+            ctx.count('search-neighbourhood-failed:' + type(e).__name__)
     for n in (2, 3, 4):
         for es in graphs.all_undirected(n, loops=(n <= 3)):
             if es:
@@ -757,7 +816,11 @@ def search(ctx, pending):
 
 def replay(ctx, payload):
     case = payload.get('case') or {}
+    if not case and isinstance(payload.get('what_no_longer_checks'), dict):
+        case = payload['what_no_longer_checks'].get('case') or {}
     cs = cases_from_desc(case)
     if not cs:
+        # the payload does not name a case that can be rebuilt: say so instead of re-running something else
+        ctx.note('replay: the payload does not describe a re-runnable case; running the whole tier instead')
         cs = build_cases(ctx)
     evaluate(ctx, cs)
